@@ -496,6 +496,193 @@ var scenarios = []scenario{
 		r2 := rOpen(c, "o1", 11, "b", 1, "UNCHECKED")
 		x.do(r2)
 	}},
+	{"foreign-lock-owner", func(x *sc) {
+		// an open state id is honoured only for lock-owners of the client it was issued to
+		c1, c2 := x.client(1, 1), x.client(2, 1)
+		a := x.openc(c1, "o1", 1, "a", 3)
+		b := x.openc(c2, "o1", 1, "a", 3)
+		x.do(rLockNew(a.Fh, a.T, a.Q, 3, c2, "l5", 1, "W", 4, 5)) // c1's open state id, lock-owner of c2
+		x.do(rLockNew(a.Fh, a.T, a.Q, 4, 0, "l5", 1, "W", 4, 5))  // ... of a client that does not exist
+		x.do(rLockt(a.Fh, c1, "l9", "W", 0, nPos))                // nothing is locked
+		x.do(rLockNew(b.Fh, b.T, b.Q, 3, c2, "l5", 1, "W", 4, 5)) // c2's own open state id
+		x.do(rLockNew(a.Fh, a.T, a.Q, 5, c1, "l5", 1, "R", 4, 5)) // same name, c1: another owner, conflicts
+	}},
+	{"replay-after-rejected-request", func(x *sc) {
+		// a rejected request (other seqid, or the same seqid with another
+		// operation) leaves the cached reply alone: the retransmission
+		// that follows is still answered from it
+		c := x.client(1, 1)
+		ro := rOpen(c, "o1", 1, "a", 3, "UNCHECKED")
+		o := x.do(ro)
+		rc := rSid("OPEN_CONFIRM", o.Fh, o.T, o.Q, 2)
+		oc := x.do(rc)
+		x.do(rSid("CLOSE", o.Fh, oc.T, oc.Q, 5)) // skipped seqids
+		x.do(rDowngrade(o.Fh, oc.T, oc.Q, 2, 1)) // same seqid, other operation
+		x.do(rc)                                 // retransmission of OPEN_CONFIRM
+		rl := rLockNew(o.Fh, oc.T, oc.Q, 3, c, "l1", 1, "W", 0, 2)
+		l := x.do(rl)
+		x.do(rLockNew(o.Fh, oc.T, oc.Q, 9, c, "l2", 1, "W", 3, 4))
+		x.do(rOpen(c, "o1", 7, "b", 3, "UNCHECKED"))
+		x.do(rSid("CLOSE", o.Fh, oc.T, oc.Q, 3))
+		x.do(rl)
+		rl2 := rLock(o.Fh, l.T, l.Q, 2, "R", 3, 5)
+		l2 := x.do(rl2)
+		x.do(rLocku(o.Fh, l2.T, l2.Q, 7, 0, 1)) // skipped lock seqid
+		x.do(rLocku(o.Fh, l2.T, l2.Q, 2, 0, 1)) // same lock seqid, other operation
+		x.do(rLock(o.Fh, l2.T, l2.Q, 0, "R", 0, 1))
+		x.do(rl2)
+		rd := rDowngrade(o.Fh, oc.T, oc.Q, 4, 1)
+		d := x.do(rd)
+		x.do(rSid("CLOSE", o.Fh, d.T, d.Q, 4))
+		x.do(rSid("OPEN_CONFIRM", o.Fh, d.T, d.Q, 9))
+		x.do(rd)
+		rcl := rSid("CLOSE", o.Fh, d.T, d.Q, 5)
+		x.do(rcl)
+		x.do(rOpen(c, "o1", 9, "a", 1, "NOCREATE"))
+		x.do(rSid("OPEN_CONFIRM", o.Fh, d.T, d.Q+1, 5))
+		x.do(rcl)
+		x.do(rOpen(c, "o1", 6, "a", 1, "NOCREATE")) // finalizes the close
+		x.do(rcl)                                   // now an old seqid
+	}},
+	{"seqid-wrap", func(x *sc) {
+		// open-owner and lock-owner seqids wrap from 2^32-1 (written -1) to 1, never 0
+		c := x.client(1, 1)
+		ro := rOpen(c, "o1", -2, "a", 3, "UNCHECKED")
+		o := x.do(ro)
+		x.do(ro)
+		rc := rSid("OPEN_CONFIRM", o.Fh, o.T, o.Q, -1)
+		oc := x.do(rc)
+		x.do(rc)
+		x.do(rDowngrade(o.Fh, oc.T, oc.Q, 0, 1))  // 0 is never the next seqid
+		x.do(rDowngrade(o.Fh, oc.T, oc.Q, -2, 1)) // an old one
+		rl := rLockNew(o.Fh, oc.T, oc.Q, 1, c, "l1", -1, "W", 0, 2)
+		l := x.do(rl)
+		x.do(rl)
+		x.do(rc) // 2^32-1 is an old seqid now
+		x.do(rLock(o.Fh, l.T, l.Q, 0, "W", 3, 4))
+		rl2 := rLock(o.Fh, l.T, l.Q, 1, "W", 3, 4)
+		l2 := x.do(rl2)
+		x.do(rl2)
+		x.do(rLocku(o.Fh, l2.T, l2.Q, 2, 0, nPos))
+		rd := rDowngrade(o.Fh, oc.T, oc.Q, 2, 1)
+		d := x.do(rd)
+		x.do(rd)
+		x.do(rSid("CLOSE", o.Fh, d.T, d.Q, 3))
+		// a lock-owner whose first seqid is 2^32-1
+		b := x.openc(c, "o2", -1, "b", 3)
+		lb := x.do(rLockNew(b.Fh, b.T, b.Q, 2, c, "l2", -2, "R", 0, 1))
+		lb = x.do(rLock(b.Fh, lb.T, lb.Q, -1, "R", 1, 2))
+		x.do(rLock(b.Fh, lb.T, lb.Q, 0, "R", 2, 3))
+		x.do(rLock(b.Fh, lb.T, lb.Q, 1, "R", 2, 3))
+	}},
+	{"open-in-flight-retransmitted", func(x *sc) {
+		// the retransmission of an OPEN arrives while the original is
+		// still opening the file: it waits and completes with the
+		// original's result; so do other requests of the open-owner
+		c1, c2 := x.client(1, 1), x.client(2, 1)
+		a := x.openc(c1, "o1", 1, "a", 1)
+		b := x.openc(c2, "o1", 1, "a", 3)
+		// reclaim-type OPEN (upgrade to read/write) held inside the leaf
+		rp := rOpenPrev(c1, "o1", 3, a.Fh, 3)
+		rp.Gate = true
+		_, id := x.e.do(rp)
+		rp.Gate = false
+		x.do(rp)                                                 // retransmission: waits
+		x.do(rp)                                                 // and another one
+		x.do(rIO("READ", a.Fh, "reg", a.T, a.Q, false))          // I/O does not wait
+		x.do(rLockNew(b.Fh, b.T, b.Q, 3, c2, "l1", 1, "W", 0, 2)) // other clients are served
+		x.e.tick(6)
+		x.do(rRenew(c2))
+		x.e.tick(6)
+		x.do(rRenew(c2)) // c1 is held by its OPEN: its lease does not run out
+		n, _ := x.e.do(rSetclientid(1, 2))
+		x.do(rConfirm(n.Cid, n.Verf)) // DELAY: c1 cannot be replaced now
+		u := x.e.finish(id)           // the original completes, then the two retransmissions
+		x.do(rIO("WRITE", a.Fh, "reg", u.T, u.Q, false))
+		x.do(rp)
+		// OPEN by name of an existing file, held; a CLOSE of the same open-owner waits
+		rn := rOpen(c1, "o1", 4, "a", 3, "NOCREATE")
+		rn.Gate = true
+		_, id = x.e.do(rn)
+		x.do(rSid("CLOSE", a.Fh, u.T, u.Q+1, 5)) // state id and seqid after the OPEN: waits, then closes
+		x.e.finish(id)
+		x.do(rn) // an old seqid by now
+		// held again; the retransmission differs (other share access): same seqid and
+		// operation, other arguments
+		a2 := x.openc(c1, "o2", 1, "a", 1)
+		rq := rOpenPrev(c1, "o2", 3, a2.Fh, 2)
+		rq.Gate = true
+		_, id = x.e.do(rq)
+		rq2 := rOpenPrev(c1, "o2", 3, a2.Fh, 1)
+		x.do(rq2)
+		x.e.finish(id)
+		// an OPEN that fails while it is in flight (the file handle has gone stale
+		// for the leaf... not possible here); one whose result is an error from the cache
+		re := rOpenPrev(c1, "o2", 4, a2.Fh, 3)
+		re.Claim = "PREVDELEG"
+		x.do(re)
+		x.do(re)
+	}},
+	{"last-byte-locks", func(x *sc) {
+		// offset 2^64-1: the last byte is a byte like any other; a server
+		// may refuse a range that consists of it alone
+		c1, c2 := x.client(1, 1), x.client(2, 1)
+		a := x.openc(c1, "o1", 1, "a", 3)
+		b := x.openc(c2, "o1", 1, "a", 3)
+		last := func(r Req, lenk string) Req {
+			r.S, r.E, r.Lenk = nPos, nPos, lenk
+			return r
+		}
+		l1 := x.do(last(rLockNew(a.Fh, a.T, a.Q, 3, c1, "l1", 1, "W", 0, 0), "eof"))
+		seq1, lseq1 := 4, 2
+		if l1.St != "OK" {
+			// refused: establish the lock-owner with another range
+			l1 = x.do(rLockNew(a.Fh, a.T, a.Q, seq1, c1, "l1", lseq1, "R", 0, 1))
+			seq1, lseq1 = seq1+1, lseq1+1
+		}
+		x.do(last(rLockt(a.Fh, c2, "l1", "W", 0, 0), "eof")) // conflict iff c1 holds the last byte
+		x.do(last(rLockt(a.Fh, c2, "l1", "R", 0, 0), "one")) // length 1 at 2^64-1: INVAL
+		l2 := x.do(last(rLockNew(b.Fh, b.T, b.Q, 3, c2, "l1", 1, "W", 0, 0), "eof"))
+		seq2, lseq2 := 4, 2
+		if l2.St != "OK" {
+			l2 = x.do(rLockNew(b.Fh, b.T, b.Q, seq2, c2, "l1", lseq2, "R", 0, 1))
+			seq2, lseq2 = seq2+1, lseq2+1
+		}
+		// through end of file from just before the last byte: covers it
+		r := rLock(a.Fh, l1.T, l1.Q, lseq1, "W", nPos-1, nPos-1)
+		r.Lenk = "eof"
+		if rep := x.do(r); rep.St == "OK" {
+			l1 = rep
+		}
+		lseq1++
+		x.do(last(rLockt(a.Fh, c2, "l1", "R", 0, 0), "eof"))
+		r = last(rLock(b.Fh, l2.T, l2.Q, lseq2, "R", 0, 0), "eof")
+		if rep := x.do(r); rep.St == "OK" {
+			l2 = rep
+		}
+		lseq2++
+		r = rLockt(a.Fh, c2, "l1", "R", nPos-2, nPos-2)
+		r.Lenk = "eof"
+		x.do(r)
+		// unlock the last byte alone, then everything
+		r = last(rLocku(a.Fh, l1.T, l1.Q, lseq1, 0, 0), "eof")
+		if rep := x.do(r); rep.St == "OK" {
+			l1 = rep
+		}
+		lseq1++
+		x.do(last(rLocku(a.Fh, l1.T, l1.Q, lseq1, 0, 0), "one"))
+		lseq1++
+		r = rLocku(a.Fh, l1.T, l1.Q, lseq1, 0, 0)
+		r.Lenk = "eof"
+		x.do(r)
+		x.do(last(rLockt(a.Fh, c1, "l3", "W", 0, 0), "eof"))
+		r = rLock(b.Fh, l2.T, l2.Q, lseq2, "W", nPos-1, nPos-1)
+		r.Lenk = "eof"
+		x.do(r)
+		x.do(rRelease(c1, "l1"))
+		x.do(rRelease(c2, "l1"))
+		_, _ = seq1, seq2
+	}},
 }
 
 // TestScenarios: scripted histories for the special cases.
@@ -512,23 +699,45 @@ func TestScenarios(t *testing.T) {
 	common.WriteJSON("meta.json", map[string]any{"scenarios": names})
 }
 
-// TestFindings: histories that reproduce defects of the pinned tree (see
-// the final report / known_findings.jsonl).
+// TestFindings: histories around defects that were found with this module.
 func TestFindings(t *testing.T) {
 	tr := common.NewTrace("trace.ndjson")
 	defer tr.Close()
-	// One lock-owner that has lock state on one file through two
-	// open-owners of its client: removing one of the two lock-owner
-	// files unlocks the whole file for the owner and then finds that
-	// its own lock count does not add up.
+	// One lock-owner that asks for lock state on one file through two
+	// open-owners of its client. Byte-range locks belong to the
+	// lock-owner, so the second LOCK with open_to_lock_owner is refused
+	// (BAD_SEQID: the existing lock state id must be used). A server
+	// that creates a second lock state and counts locks per lock state
+	// unlocks the whole file for the owner when the first open is closed
+	// and then finds that its count does not add up (panic "Failed to
+	// release locks").
 	e := newEnv(tr, 0, common.Seed()*1000+500)
 	x := &sc{e: e}
 	c := x.client(1, 1)
 	a := x.openc(c, "o1", 1, "a", 3)
 	b := x.openc(c, "o2", 1, "a", 3)
-	x.do(rLockNew(a.Fh, a.T, a.Q, 3, c, "l1", 1, "W", 0, 1))
+	l := x.do(rLockNew(a.Fh, a.T, a.Q, 3, c, "l1", 1, "W", 0, 1))
 	x.do(rLockNew(b.Fh, b.T, b.Q, 3, c, "l1", 2, "W", 2, 3))
+	x.do(rLock(a.Fh, l.T, l.Q, 2, "W", 2, 3)) // the existing lock state id works (unless a second one was created)
+	x.do(rLockt(a.Fh, c, "l2", "W", 0, nPos))
 	x.do(rSid("CLOSE", a.Fh, a.T, a.Q, 4))
+	x.do(rLockt(a.Fh, c, "l2", "W", 0, nPos)) // the owner's locks went with the open they were made through
+	x.do(rLockNew(b.Fh, b.T, b.Q, 4, c, "l1", 3, "W", 2, 3))
+	x.do(rSid("CLOSE", b.Fh, b.T, b.Q, 5))
+	e.end()
+
+	// The same through lease expiry and with a third open-owner.
+	e = newEnv(tr, 1, common.Seed()*1000+501)
+	x = &sc{e: e}
+	c = x.client(1, 1)
+	a = x.openc(c, "o1", 1, "a", 3)
+	b = x.openc(c, "o2", 1, "a", 1)
+	d := x.openc(c, "o3", 1, "a", 2)
+	x.do(rLockNew(b.Fh, b.T, b.Q, 3, c, "l1", 1, "R", 0, 2))
+	x.do(rLockNew(a.Fh, a.T, a.Q, 3, c, "l1", 2, "W", 1, 3))
+	x.do(rLockNew(d.Fh, d.T, d.Q, 3, c, "l1", 2, "W", 4, 5))
+	x.do(rLockNew(d.Fh, d.T, d.Q, 4, c, "l2", 1, "W", 4, 5)) // another lock-owner may
+	x.do(rRelease(c, "l1"))
 	e.end()
 }
 
@@ -554,6 +763,10 @@ func TestReplay(t *testing.T) {
 			t.Fatal(err)
 		}
 		e := newEnv(tr, i, common.Seed()*1000+int64(i))
+		// The model numbers the requests it holds in flight 1, 2, ..; the
+		// real server may complete one of them at once (or park another
+		// request), so the ids of the driver are mapped.
+		inFlight, realID := 0, map[int]int{}
 		for _, ln := range strings.Split(string(data), "\n") {
 			if strings.TrimSpace(ln) == "" {
 				continue
@@ -563,11 +776,18 @@ func TestReplay(t *testing.T) {
 				t.Fatalf("%s: %v", f, err)
 			}
 			switch ev.K {
-			case "op", "iostart":
+			case "op":
 				e.do(ev.Req)
+			case "iostart":
+				inFlight++
+				if rep, id := e.do(ev.Req); id > 0 && rep.St == "INFLIGHT" {
+					realID[inFlight] = id
+				}
 			case "ioend":
-				if _, ok := e.pending[ev.ID]; ok {
-					e.finish(ev.ID)
+				if id, ok := realID[ev.ID]; ok {
+					if _, ok := e.pending[id]; ok {
+						e.finish(id)
+					}
 				}
 			case "tick":
 				e.tick(ev.D)
